@@ -22,6 +22,9 @@ type Plan struct {
 	EIOAt   int64  `json:"eio_at,omitempty"`
 	// FailReadDir: listing this directory fails.
 	FailReadDir string `json:"fail_readdir,omitempty"`
+	// VanishInfo: the entry with this path is returned by ReadDir but its
+	// Info() fails with ENOENT (it vanished between readdir and lstat).
+	VanishInfo string `json:"vanish_info,omitempty"`
 }
 
 type FS struct {
@@ -30,6 +33,7 @@ type FS struct {
 	mu   sync.Mutex
 	rng  uint64
 	// counters (reach probes)
+	VanishCount    int
 	ShortReadCount int
 	EIOCount       int
 	ReadDirFails   int
@@ -77,7 +81,32 @@ func (f *FS) ReadDir(name string) ([]fs.DirEntry, error) {
 	if err != nil {
 		return nil, err
 	}
-	return os.ReadDir(p)
+	es, err := os.ReadDir(p)
+	if err != nil || f.plan.VanishInfo == "" {
+		return es, err
+	}
+	for i, e := range es {
+		full := e.Name()
+		if name != "." {
+			full = name + "/" + e.Name()
+		}
+		if full == f.plan.VanishInfo {
+			es[i] = vanished{DirEntry: e, fs: f}
+		}
+	}
+	return es, nil
+}
+
+type vanished struct {
+	fs.DirEntry
+	fs *FS
+}
+
+func (v vanished) Info() (fs.FileInfo, error) {
+	v.fs.mu.Lock()
+	v.fs.VanishCount++
+	v.fs.mu.Unlock()
+	return nil, &fs.PathError{Op: "lstat", Path: v.Name(), Err: fs.ErrNotExist}
 }
 
 func (f *FS) ReadLink(name string) (string, error) {
